@@ -157,7 +157,7 @@ func (c *Conn) CloseNow() (err error) {
 }
 
 func (c *Conn) closeHandshake(code StatusCode, reason string) error {
-	err := c.writeClose(code, reason)
+	err := c.writeClose(context.Background(), code, reason)
 	if err != nil {
 		return err
 	}
@@ -169,7 +169,7 @@ func (c *Conn) closeHandshake(code StatusCode, reason string) error {
 	return nil
 }
 
-func (c *Conn) writeClose(code StatusCode, reason string) error {
+func (c *Conn) writeClose(ctx context.Context, code StatusCode, reason string) error {
 	ce := CloseError{
 		Code:   code,
 		Reason: reason,
@@ -189,7 +189,7 @@ func (c *Conn) writeClose(code StatusCode, reason string) error {
 		return net.ErrClosed
 	}
 
-	ctx, cancel := context.WithTimeout(context.Background(), time.Second*5)
+	ctx, cancel := context.WithTimeout(ctx, time.Second*5)
 	defer cancel()
 
 	err = c.writeControl(ctx, opClose, p)
